@@ -8,7 +8,7 @@ wall is unconstrained (the system clock may be stepped either way at any point).
 from typing import List
 
 from vlib.shim import *  # noqa: F401,F403
-from vlib.h import harness, tier
+from vlib.h import harness, shard, tier
 
 import pynetdicom.timer as timer_mod
 from pynetdicom.timer import Timer
@@ -34,6 +34,17 @@ class TickClock:
 
     def perf_counter(self):
         return self._next(self.mono)
+
+    # nanosecond variants (same tick sequences, scaled): a timer that reads the wall clock through time_ns() is
+    # still reading the wall clock
+    def monotonic_ns(self):
+        return self._next(self.mono) * 10**9
+
+    def time_ns(self):
+        return self._next(self.wall) * 10**9
+
+    def perf_counter_ns(self):
+        return self._next(self.mono) * 10**9
 
     def sleep(self, s):
         return None
@@ -65,9 +76,26 @@ def _nondecreasing(xs):
     return all(xs[i] <= xs[i + 1] for i in range(len(xs) - 1))
 
 
+def _script_shards():
+    # one process per script length and (for the longer scripts) first operations: a case split of the same bound
+    out = []
+    for n in range(N_OPS + 1):
+        if n <= 2:
+            out.append({"n": n})
+        elif n <= 3:
+            out += [{"n": n, "o0": a} for a in range(5)]
+        else:
+            out += [{"n": n, "o0": a, "o1": b} for a in range(5) for b in range(5)]
+    return out
+
+
+_N, _O0, _O1 = shard("n", 0), shard("o0", -1), shard("o1", -1)
+
+
 @harness(
     "C09",
     timeout=(90, 900),
+    shards=_script_shards,
     functions=["timer:Timer.start", "timer:Timer.stop", "timer:Timer.restart", "timer:Timer.expired",
                "timer:Timer.remaining", "timer:Timer.timeout"],
     bounds="operation scripts of <= %d operations from {start, stop, restart, set-timeout, read}; timeout any int "
@@ -78,7 +106,9 @@ def _nondecreasing(xs):
 def timer_script(has_timeout: bool, timeout: int, ops: List[int], newto: List[int], mono: List[int], wall: List[int]) -> bool:
     """
     pre: 0 <= timeout <= BIG
-    pre: len(ops) <= N_OPS and all(0 <= o <= 4 for o in ops)
+    pre: len(ops) == _N and all(0 <= o <= 4 for o in ops)
+    pre: _O0 < 0 or ops[0] == _O0
+    pre: _O1 < 0 or ops[1] == _O1
     pre: len(newto) == len(ops) and all(-1 <= t <= BIG for t in newto)
     pre: len(mono) == len(ops) + 2 and len(wall) == len(mono)
     pre: all(0 <= m <= BIG for m in mono) and _nondecreasing(mono)
